@@ -10,7 +10,7 @@ BOUND = {
              "rules): grammar, FREQ first, decode == parts, re-encode identical, dateutil occurrences (first 40, 0.5 s budget per expansion) equal",
     "thorough": "8000 seeded rules",
 }
-RECUR = re.compile(r"(?:RSCALE=[A-Z]+;)?FREQ=(?:SECONDLY|MINUTELY|HOURLY|DAILY|WEEKLY|MONTHLY|YEARLY)(?:;[A-Z-]+=[^;=]+)*")
+RECUR = re.compile(r"(?:RSCALE=[A-Za-z0-9-]+;)?FREQ=(?:SECONDLY|MINUTELY|HOURLY|DAILY|WEEKLY|MONTHLY|YEARLY)(?:;[A-Z-]+=[^;=]+)*")
 
 
 def finite_atoms():
@@ -68,7 +68,7 @@ def rules(tier, seed):
         if rnd.random() < 0.3:
             r[keyf("WKST")] = rnd.choice(["MO", "SU", "su"])
         if rnd.random() < 0.1:
-            r[keyf("RSCALE")] = "GREGORIAN"
+            r[keyf("RSCALE")] = rnd.choice(["GREGORIAN", "gregorian", "Chinese", "HEBREW"])      # (a text value: as supplied)
             r[keyf("SKIP")] = rnd.choice(["OMIT", "FORWARD", "BACKWARD"])
         yield r
 
@@ -98,7 +98,7 @@ def limited(thunk, seconds=0.5):
 # the value type RFC 5545 3.3.10 / RFC 7529 give to each rule part
 RFC_KIND = {"COUNT": "int", "INTERVAL": "int", "BYSECOND": "int", "BYMINUTE": "int", "BYHOUR": "int", "BYMONTHDAY": "int", "BYYEARDAY": "int",
             "BYWEEKNO": "int", "BYSETPOS": "int", "BYMONTH": "month", "BYDAY": "weekday", "WKST": "weekday", "FREQ": "name", "UNTIL": "date",
-            "RSCALE": "name", "SKIP": "name"}
+            "RSCALE": "text", "SKIP": "name"}
 
 
 def typed_equal(kind, supplied, decoded):
@@ -110,6 +110,8 @@ def typed_equal(kind, supplied, decoded):
         return isinstance(decoded, str) and decoded.upper().lstrip("+") == str(supplied).upper().lstrip("+")
     if kind == "name":
         return isinstance(decoded, str) and decoded.upper() == str(supplied).upper()
+    if kind == "text":
+        return isinstance(decoded, str) and str(decoded) == str(supplied)
     if kind == "date":
         return type(decoded) is type(supplied) and decoded == supplied
     return True
